@@ -11,7 +11,7 @@ from pydantic import Field, validate_call
 
 from primaite.interface.request import RequestResponse
 from primaite.simulator.core import RequestManager, RequestType, SimComponent
-from primaite.simulator.network.hardware.base import IPWiredNetworkInterface, UserManager, UserSessionManager
+from primaite.simulator.network.hardware.base import IPWiredNetworkInterface, Node, UserManager, UserSessionManager
 from primaite.simulator.network.hardware.node_operating_state import NodeOperatingState
 from primaite.simulator.network.hardware.nodes.network.network_node import NetworkNode
 from primaite.simulator.network.protocols.arp import ARPPacket
@@ -1315,7 +1315,8 @@ class Router(NetworkNode, discriminator="router"):
         More information in user guide and docstring for SimComponent._init_request_manager.
         """
         rm = super()._init_request_manager()
-        rm.add_request("acl", RequestType(func=self.acl._request_manager))
+        _node_is_on = Node._NodeIsOnValidator(node=self)
+        rm.add_request("acl", RequestType(func=self.acl._request_manager, validator=_node_is_on))
         return rm
 
     def ip_is_router_interface(self, ip_address: IPv4Address, enabled_only: bool = False) -> bool:
